@@ -1,25 +1,72 @@
 """Generic property runner: every module areas/<area>.py may define
    SUBCHECKS = {"C17": [check_hex, ...], "C15": [...]}
-and run_all() runs those registered for ctx.pid (in module-name order)."""
+and run_all() runs those registered for ctx.pid (in module-name order).
+
+LOWER LAYERS.  The model a property's theorems are about is a composition: the event-loop model
+contains the timer-heap model, the network state machines assume the event loop's contract, the
+HTTP model sits on the netbuf reader, the DRBG and the AWS signer are parametric in HMAC-SHA256.
+A change to a lower layer can break the upper property although the upper property's own
+generators never reach the spot (a heap hole moved under a cancelled timer, an allocation refused
+inside a lower container).  So after a property's own sub-checks, the correspondence sub-checks of
+the layers its model stands on are run too (DEPENDS below).  A failure found by such a sub-check is
+reported for the upper property as a broken ASSUMPTION of its model - the correspondence of the
+lower layer no longer holds, so the upper theorems no longer speak about this code - and not as a
+concrete failing input of the upper property (the VIOLATION line then ends in
+no-failing-input-found unless the property's own sub-checks also found one).  Known findings that
+are listed for the lower layer's own property are not repeated here."""
 import glob
 import importlib
 import os
 import time
 import traceback
 
+import vlib
 
-def run_all(ctx):
-    here = os.path.dirname(os.path.dirname(os.path.abspath(__file__)))
-    n = 0
+# property -> [(area module, sub-check function name)]   (lower layers of that property's model)
+_HEAP = [("heap", "check_heap"), ("heap", "check_timerqueue"), ("heap", "check_heap_allocfail")]
+_EA = [("ds", "check_ds_elasticarray"), ("ds", "check_ds_allocfail")]
+_MPOOL = [("ds", "check_ds_mpool")]
+_EVENTS = [("events", "check_events_c04"), ("events", "check_events_c05")]
+_EVENTS_AF = [("events", "check_events_allocfail")]
+_NETRW = [("net", "check_net_rw")]
+_NETBUF = [("net", "check_netbuf_read"), ("net", "check_netbuf_write")]
+_HMAC = [("hash", "check_hmac"), ("hash", "check_digest")]
+
+DEPENDS = {
+    "C04": _EVENTS_AF + _HEAP + _EA + _MPOOL,          # timer heap, pollfd array growth, record pools
+    "C05": _EVENTS_AF + _HEAP + _EA + _MPOOL,
+    "C06": _EVENTS + _HEAP[:2] + _MPOOL,               # readiness delivery, per-address timeout timers, cookie pools
+    "C07": _NETRW + _EVENTS[:1],                       # the transport contract (C06) below the buffers
+    "C08": _NETBUF + _NETRW + [("net", "check_net_connect")],
+    "C09": _NETBUF + _NETRW,
+    "C11": _HMAC,                                      # the generator is parametric in HMAC-SHA256
+    "C13": [("heap", "check_heap_allocfail")] + _EA,   # the heap's array is an elastic array
+    "C19": _HMAC,
+}
+
+
+def _areas(here):
+    mods = {}
     for path in sorted(glob.glob(os.path.join(here, "areas", "*.py"))):
         name = os.path.basename(path)[:-3]
         if name.startswith("_"):
             continue
+        mods[name] = path
+    return mods
+
+
+def run_all(ctx):
+    here = os.path.dirname(os.path.dirname(os.path.abspath(__file__)))
+    n = 0
+    own = set()
+    loaded = {}
+    for name in _areas(here):
         try:
             mod = importlib.import_module("areas." + name)
         except Exception:
             ctx.fail(name, "tie", "", "area module does not import: " + traceback.format_exc()[-800:])
             continue
+        loaded[name] = mod
         for fn in getattr(mod, "SUBCHECKS", {}).get(ctx.pid, []):
             t0 = time.time()
             try:
@@ -27,6 +74,39 @@ def run_all(ctx):
             except Exception:
                 ctx.fail(name + "." + fn.__name__, "tie", "", "sub-check raised: " + traceback.format_exc()[-1200:])
             ctx.notes.append("%s.%s: %.1fs" % (name, fn.__name__, time.time() - t0))
+            own.add((name, fn.__name__))
             n += 1
     if n == 0:
         ctx.fail("framework", "tie", "", "no sub-check registered for " + ctx.pid)
+    if getattr(ctx, "replay", None):
+        return
+    # lower layers
+    listed = set(f.get("signature") for f in vlib.load_known().get("findings", []))
+    for name, fname in DEPENDS.get(ctx.pid, []):
+        if (name, fname) in own or name not in loaded or not hasattr(loaded[name], fname):
+            continue
+        before = len(ctx.failures)
+        t0 = time.time()
+        try:
+            getattr(loaded[name], fname)(ctx)
+        except Exception:
+            ctx.fail(name + "." + fname, "tie", "", "lower-layer sub-check raised: " + traceback.format_exc()[-1200:])
+        ctx.notes.append("lower layer %s.%s: %.1fs" % (name, fname, time.time() - t0))
+        kept = ctx.failures[:before]
+        same_area = ctx.pid in getattr(loaded[name], "SUBCHECKS", {})
+        for f in ctx.failures[before:]:
+            if f.signature and f.signature in listed:
+                continue            # a known finding of the lower layer's own property
+            if same_area:
+                # another sub-check of an area that models this very property's code (for instance
+                # the allocation-failure histories of the heap for C13): its verdict stands as it is
+                f.signature = None
+                kept.append(f)
+                continue
+            f.detail = ("ASSUMPTION of this property's model broken: lower layer %s.%s no longer corresponds (%s) :: " %
+                        (name, fname, f.kind)) + f.detail
+            f.kind = "assumption"
+            f.property_fails = False
+            f.signature = None
+            kept.append(f)
+        ctx.failures[:] = kept
